@@ -573,6 +573,17 @@ func C10(c Ctx) *report.Report {
 			rep.CaseIndex[fmt.Sprint(cid)] = map[string]interface{}{"message": name, "fields": fields, "accepted": cs.Accepted, "log": cs.Log}
 		}
 		rep.Count(fmt.Sprintf("admin.%s.%s", name, map[bool]string{true: "accepted", false: "rejected"}[cs.Accepted]))
+		if sf, ok := msg.(*clptypes.MsgUpdateSwapFeeParamsRequest); ok && cs.Accepted {
+			// a fee rate above 1 makes the fee exceed the swapped amount (sdk.Uint underflow where the epoch hook re-invests a
+			// rewards bucket); a negative one is no rate: such settings must be refused when submitted
+			bad := sf.DefaultSwapFeeRate.IsNegative() || sf.DefaultSwapFeeRate.GT(sdk.OneDec())
+			for _, tp := range sf.TokenParams {
+				bad = bad || tp.SwapFeeRate.IsNegative() || tp.SwapFeeRate.GT(sdk.OneDec())
+			}
+			if bad {
+				rep.Violate("C10/accepted-out-of-range/swap-fee-rate", "a swap-fee parameter message with a rate outside [0,1] was accepted", map[string]interface{}{"message": name, "fields": fields})
+			}
+		}
 		if cs.Accepted && kind == 103 {
 			// scripted traffic: let the distribution empty the native sides, then a provider adds the external token only
 			okBlocks := true
